@@ -301,6 +301,20 @@ func runTarFsCase(c tarCase) []Step {
 	line := func(entries string) string {
 		return "tar.layer\t" + c.Backend + "\t" + entries + "\t" + strings.Join(toks, "\t")
 	}
+	if len(c.Ops)%2 == 0 {
+		// the tarball path already holds an earlier, longer layer (a second emission to the same path): the new
+		// file must be exactly the new layer — digest, diff-id and size are those of the bytes in the file
+		prev := apkfs.NewMemFS()
+		blob := make([]byte, 0, 400<<10)
+		h := sha256.Sum256([]byte(desc))
+		for len(blob) < 400<<10 {
+			h = sha256.Sum256(h[:])
+			blob = append(blob, h[:]...)
+		}
+		if err := prev.WriteFile("previous-build.bin", blob, 0o644); err == nil {
+			_, _, _ = build.VerifLayerFromFS(ctx, prev, filepath.Join(dir, "layer.tar.gz"))
+		}
+	}
 	path, layer, err := build.VerifLayerFromFS(ctx, w.base, filepath.Join(dir, "layer.tar.gz"))
 	if err != nil {
 		return []Step{{Line: line("ERR"), Go: "ERR", Desc: desc + " => " + err.Error(), Mode: "verdict", Tags: []string{"backend:" + c.Backend, "writeTar:error"}}}
